@@ -418,6 +418,12 @@ func (ex *Exec) appendBuiltin(x ssa.Value, cc *ssa.CallCommon, h *Heap, reach Te
 	}
 	newLen := q.def("applen", add(slLen(s), n))
 	fits := q.def("appfits", le(newLen, slCap(s)))
+	if ins, ok := x.(ssa.Instruction); ok && hasProp(q.props, "C09") && !ex.skipAlloc {
+		q.declFun("ghost_membudget", "() Int")
+		bytes := app(sInt, "*", newLen, tInt(sizeOfType(st.Elem())))
+		q.oblige(ex.obName("guard.alloc"), "guard.alloc", reach, or(fits, le(bytes, tInt(4096+64)), lt(bytes, add(Term{"ghost_membudget", sInt}, tInt(64)))), ex.pos(ins),
+			"append: growth beyond the current capacity must be covered by the memory guard (<= 4 KiB or < budget)")
+	}
 	m := q.heapGet(h, key)
 	// result slice
 	nb := ex.alloc(h, "append")
